@@ -13,7 +13,9 @@ MAXLEN = {"quick": 6, "thorough": 8, "search": 7}
 RULE = ("every front/on/behind sign sequence of length 0..6 (quick) / 0..8 (thorough) x open/closed on an exact plane "
         "(axis-aligned or 22-bit dyadic normal, half-integer offsets, power-of-two scale) with distinct vertices, "
         "vertices 1..5 rounding steps off an axis plane next to the run (108 patterns x open/closed), vertices within "
-        "rounding error of an OBLIQUE plane next to the run (264 in quick; sign-independent clauses only), integer-dtype "
+        "rounding error of an OBLIQUE plane next to the run (264 in quick; sign-independent clauses only), unit-size "
+        "polylines translated by 2^24..2^31 (axis plane, exact, judged relative to the scene size) and by 2^20..2^24 "
+        "(float32-valued oblique normal, vertices exactly on the plane in real terms), integer-dtype "
         "vertex arrays, scales 2^-30..2^30 also in quick, "
         "plus seeded random polylines (<= 30 vertices, rational unit normals, repeated vertices, wrapped runs) and "
         "single-segment calls of intersect_segment_with_plane (in range, out of range, parallel, degenerate); "
@@ -293,8 +295,51 @@ def _near_oblique_cases(rng, tier):
     return cases
 
 
+def _far_offset_cases(rng, tier):
+    """A unit-size polyline on a dyadic grid translated by 2^24..2^31 per axis (every coordinate exact).
+    far_offset_exact: axis-aligned plane, signed distances exact (coordinate differences), vertices exactly on the plane
+    included; judged in full with a tolerance relative to the scene size (plus a few ulps of the coordinates).
+    far_offset_oblique: float32-valued unit normal, translation 2^20..2^24, vertices exactly on the plane in real terms
+    (reference + integer combinations of (b,-a,0), (0,c,-b)); dot(p,n) - dot(ref,n) must round there, so their side
+    is rounding noise: sign-independent clauses and the clearly-in-front vertices are judged."""
+    cases = []
+    reps = 70 if tier == "quick" else 400
+    for _ in range(reps):
+        k = rng.randint(1, 7)
+        signs = [rng.choice([-1, 0, 1, 1]) for _ in range(k)]
+        closed = rng.random() < 0.5
+        ax = rng.randrange(3)
+        nrm = [0.0, 0.0, 0.0]
+        nrm[ax] = rng.choice([1.0, -1.0])
+        off = [rng.choice([1, -1]) * 2.0 ** rng.randint(24, 31) for _ in range(3)]
+        ref = [o + rng.randint(-8, 8) / 8 for o in off]
+        vs = []
+        for i, sg in enumerate(signs):
+            p = [off[0] + (i + rng.choice([0, 0.5])) / 4, off[1] + rng.randint(-8, 8) / 8, off[2] + rng.randint(-8, 8) / 8]
+            p[ax], p[(ax + 1) % 3] = ref[ax] + nrm[ax] * sg * rng.choice([1, 2, 3, 5]) / 8, off[(ax + 1) % 3] + (i + rng.choice([0, 0.5])) / 4
+            vs.append(p)
+        cases.append({"kind": "far_offset_exact", "exact": True, "closed": closed, "ref": ref, "normal": nrm, "v": vs,
+                      "feature": True})
+    for _ in range(reps // 2):
+        n3 = np.array([float(x) for x in rational_unit_normal(rng)])
+        n3 = (n3 / np.linalg.norm(n3)).astype(np.float32).astype(np.float64)
+        a, b, c3 = [float(x) for x in n3]
+        off = [rng.choice([1, -1]) * 2.0 ** rng.randint(20, 24) for _ in range(3)]
+        ref = [o + rng.randint(-8, 8) / 8 for o in off]
+        pat = rng.choice(["OFB", "BFO", "OFFO", "BOFB", "FFO", "OFF", "BFOB", "OFOB", "OOFB"])
+        vs = []
+        for ch in pat:
+            i, j = rng.randint(-8, 8), rng.randint(-8, 8)
+            p = [ref[0] + (i * b) / 8, ref[1] + (-i * a + j * c3) / 8, ref[2] + (-j * b) / 8]
+            d = {"F": rng.choice([1.0, 2.0, 3.0]), "B": -rng.choice([1.0, 2.0, 3.0]), "O": 0.0}[ch]
+            vs.append([x + d * y for x, y in zip(p, (a, b, c3))])
+        cases.append({"kind": "far_offset_oblique", "exact": False, "closed": rng.random() < 0.5, "ref": ref,
+                      "normal": [a, b, c3], "v": vs})
+    return cases
+
+
 def gen_cases(rng, n, tier):
-    cases = _near_plane_cases(rng, tier) + _near_oblique_cases(rng, tier)
+    cases = _near_plane_cases(rng, tier) + _near_oblique_cases(rng, tier) + _far_offset_cases(rng, tier)
     if True:
         for k in range(0, MAXLEN[tier] + 1):
             for signs in itertools.product((-1, 0, 1), repeat=k):
@@ -425,7 +470,17 @@ def coq_case(c, o):
     else:
         obs = "(Ok (OSlice %s %s))" % (coq_list(flv(r) for r in o["v"]), coq_bool(o["is_closed"]))
     pl = "(MkPlane %s %s)" % (qv(c["ref"]), qv(c["normal"]))
+    if c.get("feature"):
+        return "CSliceFeat %s %s %s %s %s" % (q(_feature_mag(c)), coq_bool(c["closed"]), pl, coq_list(qv(p) for p in c["v"]), obs)
     return "CSlice %s %s %s %s %s" % (coq_bool(c["exact"]), coq_bool(c["closed"]), pl, coq_list(qv(p) for p in c["v"]), obs)
+
+
+def _feature_mag(c):
+    """scene size + 2^-20 of the coordinate magnitude: 1e-9 of it is 1e-9 * size + about 4 ulps of a coordinate"""
+    vs = [_F(p) for p in c["v"]] + [_F(c["ref"])]
+    size = max(abs(x - y) for p in vs for r in vs for x, y in zip(p, r))
+    mag = max(abs(x) for p in vs for x in p)
+    return size + mag / 2 ** 20
 
 
 # ---------------------------------------------------------------------------------------------------------
@@ -494,7 +549,7 @@ def _sign_independent(c, o, ref, nrm, vs):
         if any(x != x or x in (float("inf"), float("-inf")) for x in r):
             return "row %d is not finite: %r" % (i, r)
         sd = _dot([Fr(a) - b for a, b in zip(r, ref)], nrm)
-        if sd < -Fr(1, 10 ** 8) * mag:
+        if sd < -Fr(1, 10 ** 8) * (_feature_mag(c) if c.get("feature") else mag):
             return "row %d is behind the plane (signed distance %g)" % (i, float(sd))
     if len(o["v"]) == 0:
         return "returned an empty polyline"
@@ -555,7 +610,7 @@ def oracle(c, o):
     rows = o["v"]
     if len(rows) != len(pts):
         return "result has %d vertices, the run in front with its extensions has %d" % (len(rows), len(pts))
-    tol = Fr(1, 10 ** 9) * mag
+    tol = Fr(1, 10 ** 9) * (_feature_mag(c) if c.get("feature") else mag)
     for i, (r, p) in enumerate(zip(rows, pts)):
         if any(x != x or x in (float("inf"), float("-inf")) for x in r):
             return "row %d is not finite: %r" % (i, r)
